@@ -27,6 +27,7 @@ import (
 	"context"
 	"errors"
 	"fmt"
+	"os"
 	"runtime"
 	"sort"
 	"strings"
@@ -91,6 +92,10 @@ type v20World struct {
 
 	// outcomes chosen by the script for the step that is about to run
 	getFail, newFail, startFail, sdFail, provFail atomic.Bool
+	// further ways setupConfigurationComponents fails before service.New: the configuration does not pass xconfmap.Validate
+	// (pipeline references an exporter that is not configured) / does not unmarshal (unknown top-level key)
+	cfgInvalid, cfgBadKey atomic.Bool
+	dry atomic.Bool // Collector.DryRun in progress: hooks do not gate, Factories() does not open a new generation
 
 	runDone chan struct{}
 	runRes  string // ok | err | panic
@@ -119,6 +124,9 @@ func (w *v20World) logLocked(s string) {
 
 // at parks the calling (Run) goroutine at a gate until the script releases it.
 func (w *v20World) at(name string, gen int) {
+	if w.dry.Load() {
+		return
+	}
 	if !w.gated.Load() {
 		if j := w.jitter.Load(); j > 0 {
 			w.mu.Lock()
@@ -215,9 +223,15 @@ var (
 )
 
 func (w *v20World) factories() (Factories, error) {
-	g := int(w.gen.Add(1))
-	w.logf("fact %d", g)
-	w.yield()
+	var g int
+	if w.dry.Load() {
+		g = 0 // DryRun builds (never starts) components of a pseudo-generation 0
+		w.logf("dryfact")
+	} else {
+		g = int(w.gen.Add(1))
+		w.logf("fact %d", g)
+		w.yield()
+	}
 	mk := func(name string) *v20Comp {
 		w.logf("c %d %s", g, name)
 		return &v20Comp{w: w, gen: g, name: name}
@@ -279,6 +293,14 @@ func (p *v20Provider) Retrieve(_ context.Context, _ string, wf confmap.WatcherFu
 			"pipelines":  map[string]any{"logs": map[string]any{"receivers": []any{"vrecv"}, "exporters": []any{"vexp"}}},
 		},
 	}
+	if w.cfgInvalid.Load() {
+		w.logf("cfginvalid %d", g)
+		conf["service"].(map[string]any)["pipelines"] = map[string]any{"logs": map[string]any{"receivers": []any{"vrecv"}, "exporters": []any{"vexp", "vmissing"}}}
+	}
+	if w.cfgBadKey.Load() {
+		w.logf("cfgbadkey %d", g)
+		conf["verif_unknown_section"] = map[string]any{"x": 1}
+	}
 	return confmap.NewRetrieved(conf, confmap.WithRetrievedClose(func(context.Context) error {
 		w.logf("pclose %d", g)
 		return nil
@@ -308,7 +330,10 @@ var v20PickMsgs = map[string]string{
 	"Config updated, restart service":                  "reload",
 }
 
-func v20New(tb testing.TB) *v20World {
+func v20New(tb testing.TB) *v20World { return v20NewOpt(tb, false) }
+
+// v20NewOpt: disableGraceful = CollectorSettings.DisableGracefulShutdown (Run then registers signalsChannel for SIGHUP only)
+func v20NewOpt(tb testing.TB, disableGraceful bool) *v20World {
 	w := &v20World{
 		started: map[string]bool{}, shutdown: map[string]int{}, sdGen: map[int]int{}, startedOK: map[int]bool{}, hosts: map[string]component.Host{},
 		gateCh: make(chan v20Gate), relCh: make(chan struct{}), runDone: make(chan struct{}), stopBg: make(chan struct{}),
@@ -336,6 +361,7 @@ func v20New(tb testing.TB) *v20World {
 		BuildInfo:      component.NewDefaultBuildInfo(),
 		Factories:      w.factories,
 		LoggingOptions: []zap.Option{zap.Hooks(hook)},
+		DisableGracefulShutdown: disableGraceful,
 		ConfigProviderSettings: ConfigProviderSettings{ResolverSettings: confmap.ResolverSettings{
 			URIs: []string{"verif:cfg"},
 			ProviderFactories: []confmap.ProviderFactory{confmap.NewProviderFactory(func(ps confmap.ProviderSettings) confmap.Provider {
@@ -601,6 +627,15 @@ type v20Det struct {
 	pendAsync  int
 	pendFatal  int // fatal-error hand-overs of the live service still waiting (abandoned when that service shuts down)
 	sigDropped int // signals offered while the signal channel was full: dropped, exactly as signal.Notify does
+	// signals harness: signals are delivered by the OPERATING SYSTEM (kill(getpid(), sig)) and reach signalsChannel only
+	// through os/signal and the registrations Run made; dg = DisableGracefulShutdown
+	osSig       bool
+	dryRuns     int
+	sigStuck    bool // the history ended with Run not returned although a registered signal had entered the channel
+	dg          bool
+	sigIgnored  int    // delivered while signalsChannel was not registered for them
+	sigEntered  int    // entered the channel
+	lastSigPick string // the select's last receive was this signal (hup|term), "" otherwise
 	ctxDone    bool
 	everRun    bool // Running was reached
 	reqAfter   bool // Shutdown() called after Running was first reached
@@ -642,7 +677,11 @@ func (d *v20Det) emit(op string, withObs bool) {
 	}
 	if withObs {
 		d.out.Linef("op %s", op)
-		d.out.Linef("obs %s", d.w.obs())
+		if d.osSig {
+			d.out.Linef("obs %s sigq=%d", d.w.obs(), len(d.w.col.signalsChannel))
+		} else {
+			d.out.Linef("obs %s", d.w.obs())
+		}
 	} else {
 		d.out.Linef("op %s noobs", op)
 	}
@@ -680,6 +719,40 @@ func (d *v20Det) release() { d.w.relCh <- struct{}{} }
 // external performs one external event while the Run goroutine is parked / in select / not started / returned.
 func (d *v20Det) external(kind int) {
 	w := d.w
+	if d.osSig && (kind == 3 || kind == 4 || kind == 10) {
+		d.osSignal(kind)
+		return
+	}
+	if kind == 10 {
+		return
+	}
+	if kind == 11 { // Collector.DryRun on a collector whose Run has not been called: validates, must change nothing
+		if d.at != "idle" {
+			return
+		}
+		inv := d.rnd.IntN(3) == 0
+		w.cfgInvalid.Store(inv)
+		w.dry.Store(true)
+		nStarted := func() int { w.mu.Lock(); defer w.mu.Unlock(); return len(w.started) }
+		before := nStarted()
+		closedBefore := w.chanClosed()
+		err := func() (err error) {
+			defer func() {
+				if r := recover(); r != nil {
+					err = fmt.Errorf("panic: %v", r)
+				}
+			}()
+			return w.col.DryRun(w.ctx)
+		}()
+		w.dry.Store(false)
+		w.cfgInvalid.Store(false)
+		if st := w.col.GetState(); st != StateStarting || nStarted() != before || w.chanClosed() != closedBefore {
+			d.out.Linef("viol sig=C20/dryrun/changed-collector-state state=%s started=%d: DryRun must only validate", st, nStarted()-before)
+		}
+		d.dryRuns++
+		d.emit(fmt.Sprintf("dryrun %s", map[bool]string{true: "err", false: "ok"}[err != nil]), true)
+		return
+	}
 	if (kind == 3 || kind == 4) && d.at != "done" && len(d.sigs) >= 3 {
 		// capacity reached (make(chan os.Signal, 3)): os/signal delivers with a non-blocking send, the signal is dropped
 		// before it reaches the collector — no label of the model, nothing to observe
@@ -835,6 +908,10 @@ func (d *v20Det) afterSelect() {
 			d.sigs = d.sigs[1:]
 		}
 	}
+	d.lastSigPick = ""
+	if branch == "hup" || branch == "term" {
+		d.lastSigPick = branch
+	}
 	if branch == "watch" || branch == "hup" {
 		d.reloads++
 		d.sdIs = "old"
@@ -850,7 +927,7 @@ func (d *v20Det) afterSelect() {
 	d.emit("pick "+branch, true)
 }
 
-var v20ExtKinds = map[string]int{"shutdown": 0, "shutdownN": 1, "hup": 3, "term": 4, "watch": 5, "watcherr": 6, "async": 7, "cancel": 8, "fatal": 9}
+var v20ExtKinds = map[string]int{"shutdown": 0, "shutdownN": 1, "hup": 3, "term": 4, "watch": 5, "watcherr": 6, "async": 7, "cancel": 8, "fatal": 9, "int": 10, "dryrun": 11}
 
 func (d *v20Det) v20FatalEnabled() bool { return true }
 
@@ -914,6 +991,19 @@ func (d *v20Det) runCase(budget int, corpus []string) {
 				before := d.nops
 				for try := 0; try < 6 && d.nops == before; try++ {
 					// Shutdown() calls and reload triggers are weighted up
+					if d.osSig {
+						// signals weighted up: SIGHUP, SIGTERM, SIGINT from the OS; the rest as in the run-loop harness
+						if d.at == "idle" && d.rnd.IntN(4) == 0 {
+							d.external(11)
+							continue
+						}
+						k := []int{0, 1, 3, 3, 3, 3, 3, 4, 4, 10, 10, 5, 6, 7, 8, 9}[d.rnd.IntN(16)]
+						if (k == 3 || k == 4 || k == 10) && (!d.everRun || d.at == "done") && d.rnd.IntN(4) != 0 {
+							continue // outside the registration window a signal is only sent now and then
+						}
+						d.external(k)
+						continue
+					}
 					d.external([]int{0, 1, 2, 3, 3, 3, 3, 5, 5, 5, 4, 6, 7, 8, 9, 9}[d.rnd.IntN(16)])
 				}
 				if d.at == "select" && d.ready() > 0 {
@@ -942,10 +1032,12 @@ func (d *v20Det) runCase(budget int, corpus []string) {
 		case "retrieve":
 			o := "ok"
 			if fail {
-				o = []string{"getfail", "newfail"}[d.rnd.IntN(2)]
+				o = []string{"getfail", "newfail", "invalid", "badkey"}[d.rnd.IntN(4)]
 			}
 			w.getFail.Store(o == "getfail")
 			w.newFail.Store(o == "newfail")
+			w.cfgInvalid.Store(o == "invalid")
+			w.cfgBadKey.Store(o == "badkey")
 			d.release()
 			d.settle(false)
 			d.emit("build "+o, true)
@@ -972,6 +1064,14 @@ func (d *v20Det) runCase(budget int, corpus []string) {
 			}
 			d.release()
 			d.settle(false)
+			if d.osSig && d.lastSigPick != "" {
+				// direct oracle: what the collector does with the signal it has just received from the OS
+				if d.lastSigPick == "term" && d.at == "sd" {
+					d.out.Linef("viol sig=C20/signal/termination-signal-did-not-stop the select received SIGINT/SIGTERM and the collector started a reload instead of shutting down")
+				} else if d.lastSigPick == "hup" && d.at == "prov" {
+					d.out.Linef("viol sig=C20/signal/sighup-stopped-the-collector the select received SIGHUP and the collector shut down instead of reloading")
+				}
+			}
 			d.emit("sel", true)
 		case "sd":
 			w.sdFail.Store(fail)
@@ -1015,6 +1115,7 @@ func (d *v20Det) runCase(budget int, corpus []string) {
 		// judged NOW, before cleanup cancels the context: the history is over and Run has not returned
 		w.logf("wedged")
 		d.lostWatchErr = d.pendWatchErr > 0
+		d.sigStuck = d.osSig && len(d.sigs) > 0
 	}
 }
 
@@ -1238,3 +1339,63 @@ func TestVerifC20Race(t *testing.T) {
 		out.Flush()
 	}
 }
+
+// ---------------------------------------------------------------------------------------------
+// OS-delivered signals (signals harness, harness/c20/signals_test.go)
+
+var v20SigGuard chan os.Signal
+
+// v20DeliverSignal sends sig to this process and returns once os/signal has handed it to every registered channel:
+// os/signal processes signals one at a time in a single goroutine (signal.loop -> process), so when the marker SIGUSR1 sent
+// AFTER sig has reached the guard channel, process(sig) has completed — sig is in signalsChannel, or was dropped, or the
+// channel was not registered for it.
+func v20DeliverSignal(sig syscall.Signal) bool {
+	wait := func(want syscall.Signal) bool {
+		deadline := time.After(3 * time.Second)
+		for {
+			select {
+			case got := <-v20SigGuard:
+				if got == want {
+					return true
+				}
+			case <-deadline:
+				return false
+			}
+		}
+	}
+	if err := syscall.Kill(os.Getpid(), sig); err != nil {
+		return false
+	}
+	if !wait(sig) {
+		return false
+	}
+	if err := syscall.Kill(os.Getpid(), syscall.SIGUSR1); err != nil {
+		return false
+	}
+	return wait(syscall.SIGUSR1)
+}
+
+func (d *v20Det) osSignal(kind int) {
+	sig := map[int]syscall.Signal{3: syscall.SIGHUP, 4: syscall.SIGTERM, 10: syscall.SIGINT}[kind]
+	name := map[int]string{3: "hup", 4: "term", 10: "int"}[kind]
+	if d.sigEntered+d.sigDropped+d.sigIgnored >= 12 {
+		return // keep histories short
+	}
+	if !v20DeliverSignal(sig) {
+		d.bad = true
+		return
+	}
+	// the harness's own account of what must have happened (the authoritative comparison is the model's, line by line)
+	registered := d.everRun && d.at != "done" && (sig == syscall.SIGHUP || !d.dg)
+	switch {
+	case registered && len(d.sigs) < 3:
+		d.sigs = append(d.sigs, sig)
+		d.sigEntered++
+	case registered:
+		d.sigDropped++
+	default:
+		d.sigIgnored++
+	}
+	d.emit("ossig "+name, d.stable())
+}
+
